@@ -254,6 +254,7 @@ class Server(Script):
         self.secret = None
         self.enc_response = None
         self.plugin_responses = []
+        self.plugin_sent = 0
         self.replies = []               # ('keep_alive', id)|('teleport', id)
         self.reply_frames = 0           #   |('pos_look', fields)
         self.expected_replies = 0
@@ -331,7 +332,10 @@ class Server(Script):
                 pid == packet_info(v, 'plugin_response')[0]:
             self.plugin_responses.append(decode(v, 'plugin_response',
                                                 payload))
-            if self.waiting == 'plugin':
+            # a waiting server waits for the answers to *all* requests it
+            # has sent so far (answers arrive in request order)
+            if self.waiting == 'plugin' and \
+                    len(self.plugin_responses) >= self.plugin_sent:
                 self.waiting = None
                 self.advance_login()
             return
@@ -380,6 +384,7 @@ class Server(Script):
                 _, mid, chan, data, wait = step
                 self.send_frame(*encode(v, 'plugin_request', message_id=mid,
                                         channel=chan, data=data))
+                self.plugin_sent += 1
                 if wait:
                     self.waiting = 'plugin'
             elif kind == 'success':
